@@ -26,7 +26,8 @@ THEOREMS = {
     'C19': ['C19.C19_gate', 'C19.C19_wf', 'C19.C19_put_get', 'C19.C19_put_frame', 'C19.C19_list', 'C19.C19_delete_active',
             'C19.C19_delete', 'C19.C19_rename', 'C19.C19_isolation'],
     'C20': ['C20.C20_exclusion', 'C20.C20_cancel_safe', 'C20.C20_file_exclusion', 'C20.C20_file_released',
-            'C20.C20_no_deadlock', 'C20.C20_terminates'],
+            'C20.C20_no_deadlock', 'C20.C20_terminates',
+            'C20.C20_thread_exclusion', 'C20.C20_thread_no_deadlock', 'C20.C20_thread_terminates'],
 }
 
 
